@@ -38,7 +38,9 @@ def main():
         reg = build_registry()
         try:
             run = runner.run_property(SPECS[pid], a.tier, seed, reg)
-            code = runner.finish(run, os.path.join(runner.VERIF, 'evidence', f'{pid}.json'),
+            # (PYVC_EVIDENCE_DIR: used by the seed scripts, which run the checks on scratch copies and must not overwrite the
+            #  evidence of /repo itself)
+            code = runner.finish(run, os.path.join(os.environ.get('PYVC_EVIDENCE_DIR') or os.path.join(runner.VERIF, 'evidence'), f'{pid}.json'),
                                  f'./check {pid} --tier {a.tier}')
             if a.write_baseline:
                 runner.write_baseline(run)
